@@ -75,6 +75,15 @@ def objective_composition(ctx):
                 rd_ok = len(reds) == 1 and names[0] == 'reduced' and reds[0][1] and _is_self(reds[0][1][0], sn, '_reducer') and \
                     ('arraylike', ('const', True)) in reds[0][2]
                 ctx.check(rd_ok, label + '#reducer', 'reducer is outermost', 'the reducer is not the outermost wrapper: ' + shown, f, node)
+                # what the property states is reducer(cost(x)) + penalty(x): the penalty must be added OUTSIDE the reducer.  With the
+                # reducer outside the penalty wrapper the solver minimises reducer(cost(x) + penalty(x)) - the scalar penalty broadcast
+                # over the components - which agrees with the statement only for translation-equivariant reducers (max, min, mean)
+                if rd_ok and pens and names.index('reduced') < names.index('wrap_penalty'):
+                    key2 = '%s._decorate_objective#reducer-over-penalty' % f.cls.name
+                    if key2 not in getattr(ctx, '_c01_seen', set()):
+                        ctx._c01_seen = getattr(ctx, '_c01_seen', set()) | {key2}
+                        ctx.bad(key2, '%s applies the reducer to cost(x) + penalty(x), not to cost(x) alone: the reported energy is reducer(cost + penalty) instead of reducer(cost) + penalty (a sum reducer over n components counts the penalty n times): %s'
+                                % (f.qualname, shown), f, node, statement='reducer wraps the penalty wrapper')
             else:
                 ctx.check(not reds, label + '#reducer', 'no reducer wrapper without a reducer',
                           'a reducer wrapper is applied although no reducer is set: ' + shown, f, node)
